@@ -95,7 +95,9 @@ type countTransport struct {
 	addr  *net.UDPAddr
 }
 
-func (t *countTransport) LocalAddr() net.Addr  { return &net.UDPAddr{IP: net.IPv4(192, 0, 2, 53), Port: 53} }
+func (t *countTransport) LocalAddr() net.Addr {
+	return &net.UDPAddr{IP: net.IPv4(192, 0, 2, 53), Port: 53}
+}
 func (t *countTransport) RemoteAddr() net.Addr { return t.addr }
 func (t *countTransport) WriteMsg(m *dns.Msg) error {
 	t.mu.Lock()
@@ -276,6 +278,7 @@ type ddRun struct {
 	abort    chan struct{}
 	gens     []*waitgroup.Generation // index = model id-1, creation order
 	genKey   []int
+	genDkey  []uint64 // the real key each generation was registered under
 	genLead  []*ddReq
 	short    map[int]bool // model generation ids TLC times out in this schedule
 	expired  map[int]bool // Timeout step replayed
@@ -646,6 +649,7 @@ func (r *ddRun) emit(ev string, fields map[string]any, last bool) {
 func (r *ddRun) adopt(q *ddReq, g *waitgroup.Generation) {
 	r.gens = append(r.gens, g)
 	r.genKey = append(r.genKey, q.spec.Key)
+	r.genDkey = append(r.genDkey, q.dkey)
 	r.genLead = append(r.genLead, q)
 	q.role = "leader"
 	q.gen = g
@@ -685,7 +689,7 @@ func (r *ddRun) check() bool {
 			return false
 		}
 		if to && lead.status != "ret" {
-			if cur := r.current(r.genKey[i]); cur != g {
+			if cur := r.wg.VerifC11Current(r.genDkey[i]); cur != g {
 				r.violate("TimedOutGenerationIsTombstone", fmt.Sprintf("generation %d timed out and its leader is still running, but its key now maps to generation %d", i+1, r.id(cur)))
 				return false
 			}
@@ -1061,7 +1065,7 @@ func (r *ddRun) runSchedule() error {
 	defer close(r.abort)
 	r.reqs = map[int]*ddReq{}
 	r.order = nil
-	r.gens, r.genKey, r.genLead = nil, nil, nil
+	r.gens, r.genKey, r.genDkey, r.genLead = nil, nil, nil, nil
 	r.expired, r.shared = map[int]bool{}, map[int]bool{}
 	r.hist, r.lines, r.failed = nil, nil, false
 	r.clockOff = 0
